@@ -13,7 +13,7 @@ From DV Require Import Model.PyPrims Model.C12Model Model.C12Spec2 Proofs.C12Pro
   Proofs.C12AnnTop Proofs.C12FunTop Proofs.C12ImageTop Proofs.C12Examples2 Model.C12Shallow Proofs.C12ShallowTop
   Model.C12Spec3 Proofs.C12IsoFullTop
   Model.C12Spec4 Proofs.C12Strict Proofs.C12StrictTop Proofs.C12Shared Proofs.C12StrictCor Proofs.C12StrictEx Proofs.C12Tuple
-  Proofs.C12IsoFull Proofs.C12ResultHeap.
+  Proofs.C12IsoFull Proofs.C12ResultHeap Model.C12Classes Proofs.C12Alias Proofs.C12Owner.
 Import ListNotations.
 Open Scope Z_scope.
 
@@ -718,3 +718,71 @@ Theorem result_heap_annotation_sets_exact_partial : forall nf h seeds root fuel 
     end.
 Proof. exact result_heap_exact_l. Qed.
 Print Assumptions result_heap_annotation_sets_exact_partial.
+
+(* ---- wave 7: object-level independence, stated on the objects themselves -------------------------------------------
+   The heap is object-level (every Python object with identity is an entry: EMPTY lists, dicts and sets, frozen and
+   mutable Bipartition objects, the (owner, attribute) tuple of a bound annotation); copy.deepcopy is transcribed as to
+   which object is allocated / stored / written.  With the atomic objects opaque, as they are dumped (atomic_opaque:
+   StateAlphabet / StateIdentity carry no body), whatever the deep copy and its source both reach IS an atomic object:
+   no list, dict, set, plain object or annotable object of the copy is an object of the source, whatever its content
+   (emptiness, `is_mutable` flags, falsy values play no role). *)
+Theorem deep_copy_shares_only_atomic_objects : forall nf h root fuel s' y,
+  wf_heap h [] = true -> atomic_opaque h = true -> 0 <= root < hlen h -> (length h < fuel)%nat ->
+  run nf fuel h root RDeep = Ok (s', R y) ->
+  forall o, reach (sh s') y o -> reach (sh s') root o -> is_atomic h o = true.
+Proof. exact deep_shares_only_atomic_l. Qed.
+Print Assumptions deep_copy_shares_only_atomic_objects.
+
+(* the taxon-namespace-scoped copy: a shared object is atomic or reachable from the namespace / one of its taxa *)
+Theorem scoped_copy_shares_only_namespace_region_and_atomic_objects : forall nf h root ns fuel s' y,
+  wf_heap h (ns_seeds h ns) = true -> atomic_opaque h = true -> 0 <= root < hlen h -> (length h < fuel)%nat ->
+  run nf fuel h root (RScoped ns) = Ok (s', R y) ->
+  forall o, reach (sh s') y o -> reach (sh s') root o ->
+    is_atomic h o = true \/ exists b, In b (ns_seeds h ns) /\ reach h b o.
+Proof. exact scoped_shares_only_region_l. Qed.
+Print Assumptions scoped_copy_shares_only_namespace_region_and_atomic_objects.
+
+(* satisfiable on a tip node with an empty child list, empty comments lists, an empty dict attribute and an edge with a
+   frozen bipartition; every one of these is a NEW object of the copy *)
+Theorem alias_hypotheses_satisfiable_and_empty_containers_copied :
+  (wf_heap tip_heap [] = true /\ atomic_opaque tip_heap = true)
+  /\ exists s y, run false 20 tip_heap 0 RDeep = Ok (s, R y) /\ y = 7
+    /\ body_of s 7 = [(P 100, R 8); (P 101, R 9); (P 102, R 10); (P 103, R 11)]
+    /\ body_of s 8 = [] /\ body_of s 9 = [] /\ body_of s 10 = []
+    /\ body_of s 11 = [(P 104, R 7); (P 105, R 12); (P 101, R 13)]
+    /\ body_of s 12 = [(P 106, P 1003); (P 107, P 1); (P 108, R 11)] /\ body_of s 13 = []
+    /\ reach_list (sh s) [7] = [13; 12; 11; 10; 9; 8; 7].
+Proof. exact (conj tip_heap_hyp tip_heap_copy_shares_nothing). Qed.
+Print Assumptions alias_hypotheses_satisfiable_and_empty_containers_copied.
+
+(* an attribute-bound annotation given ANOTHER object as owner (owner_instance= of add_bound_attribute), wherever the owner
+   sits in the copied structure (copied earlier or later than the annotation): the annotation `a` holds `_value` = a pair
+   (owner, name).  Its counterpart a' in the copy holds a pair (owner', name) with the SAME name whose owner' is the
+   counterpart of owner under the isomorphism of deepcopy_isomorphism; owner' is the very object `owner` only if that
+   object is one the copy shares (a memo seed or atomic object: owner' < hlen h), otherwise a fresh object of the copy,
+   different from the source's owner.  So the copy's annotation follows the copy's attribute. *)
+Theorem foreign_owner_annotation_follows_copy : forall nf h seeds root fuel s' y,
+  wf_heap h seeds = true -> wf_heap2 h = true -> wf_heap3 h = true -> wf_heap3s h = true -> wf_heap4 h = true ->
+  root_seeds_ok h seeds root = true -> memz root (owned_list h) = false ->
+  0 <= root < hlen h -> (length h < fuel)%nat ->
+  run_seeded nf fuel h seeds root = Ok (s', R y) ->
+  forall a a' oa t ot owner name,
+    iso_rel h s' root y a a' ->
+    hget h a = Some oa -> In (NM_VALUE, R t) (obody oa) ->
+    hget h t = Some ot -> In (pidx 0, R owner) (obody ot) -> In (pidx 1, P name) (obody ot) ->
+    exists oa' t' ot' owner',
+      hget (sh s') a' = Some oa' /\ In (NM_VALUE, R t') (obody oa')
+      /\ hget (sh s') t' = Some ot' /\ In (pidx 0, R owner') (obody ot') /\ In (pidx 1, P name) (obody ot')
+      /\ iso_rel h s' root y t t' /\ iso_rel h s' root y owner owner'
+      /\ (owner' < hlen h -> owner = owner')
+      /\ (hlen h <= owner' -> owner <> owner').
+Proof. exact foreign_owner_follows_copy_l. Qed.
+Print Assumptions foreign_owner_annotation_follows_copy.
+
+(* its hypotheses hold on a heap whose annotation is bound to a LATER sibling of the annotated node *)
+Theorem foreign_owner_hypotheses_satisfiable :
+  wf_heap owner_heap [] = true /\ wf_heap2 owner_heap = true /\ wf_heap3 owner_heap = true
+  /\ wf_heap3s owner_heap = true /\ wf_heap4 owner_heap = true /\ root_seeds_ok owner_heap [] 0 = true
+  /\ memz 0 (owned_list owner_heap) = false.
+Proof. exact owner_heap_iso_hyp. Qed.
+Print Assumptions foreign_owner_hypotheses_satisfiable.
